@@ -456,6 +456,46 @@ func genSeqPlan(prop string, seed uint64, tier string) *Plan {
 		restarts = 3
 		p.Extra["scenario"] = 1
 	}
+	if prop == "C17" && len(c.Served) > 0 && p.Extra["scenario"] == 0 && r.Bool(1, 4) {
+		// age-limit template: the file following a range changes its first record (an in-place
+		// pass drops a dead first record) between two requests that look at its age
+		id := idBase
+		add := func(op Op) { id++; op.ID = id; p.Ops = append(p.Ops, op) }
+		small := func(k int) Op {
+			return Op{Kind: "set", K: k, V: ValSpec{Class: r.Pick(VConst, VText, VRandom), Len: r.Pick(8, 10, 40, 200), Seed: uint32(r.U64())}}
+		}
+		nk := len(p.Keys)
+		b := c.Served[r.Intn(len(c.Served))]
+		perFile := int(c.DataFileMax / 256)
+		if perFile > 12 {
+			perFile = 12
+		}
+		// file 0: full
+		for j := 0; j < perFile; j++ {
+			add(small(r.Intn(nk)))
+		}
+		// file 1: a first record that dies later, then (days later) younger records
+		victim := r.Intn(nk)
+		add(small(victim))
+		add(Op{Kind: "advance", D: r.Pick64(3, 4, 10) * 86400 * 1000})
+		for j := 1; j < perFile; j++ {
+			k := r.Intn(nk)
+			if j == 1 || r.Bool(1, 4) {
+				k = victim
+			}
+			add(small(k))
+		}
+		// head
+		add(small(r.Intn(nk)))
+		add(Op{Kind: "flush"})
+		days := r.Pick(1, 2)
+		add(Op{Kind: "gc", GCBucket: b, GCStart: 0, GCEnd: 0, GCDays: days, Merge: false, Pretend: r.Bool(1, 2)})
+		add(Op{Kind: "gc", GCBucket: b, GCStart: 1, GCEnd: 1, GCDays: 0, Merge: r.Bool(1, 2)})
+		add(Op{Kind: "advance", D: r.Pick64(2000, 3600*1000)})
+		add(Op{Kind: "gc", GCBucket: b, GCStart: r.Pick(0, 0, -1), GCEnd: 0, GCDays: days, Merge: false})
+		idBase = id
+		p.Extra["ageTemplate"] = 1
+	}
 	for i := 0; i < nOps; i++ {
 		op := Op{ID: idBase + i + 1}
 		op.Kind = kinds[r.Weighted(weights)]
